@@ -511,4 +511,19 @@ def parseValue (isNum : Str → Bool) (inp : Str) : ValRes :=
       | .seg .sq v r => .ok .sq v r
       | .seg .unq v r => let (k, sc) := classify isNum v; .ok k sc r
 
+/-! ## whether the tree under test carries the case-folding fix (closed Booleans over the generated tables) -/
+
+/-- the words `parseValue` matches case-insensitively -/
+def foldWords : List String := ["null", "suspend", "unsuspend", "true", "false"]
+
+/-- the code under test quotes keyword case variants in keys and keeps the spelling of an unquoted null key -/
+def keyFixApplied : Bool := rawKeyQuotesKeywordCase && uqFoldLiteral.isNone
+
+/-- the code under test does not lower-case values, quotes every case variant of null / suspend / unsuspend
+    and every non-canonical spelling of true / false -/
+def valueFixApplied : Bool :=
+  !(lowerGuard false false) &&
+  ["null", "suspend", "unsuspend"].all (fun w => rawValueFoldWords.contains w) &&
+  ["true", "false"].all (fun w => rawValueFoldWords.contains w || rawValueFoldNeWords.contains w)
+
 end D2V.Quote
